@@ -169,7 +169,7 @@ class TcpCase:
         return "%s\t%s\t%s\t%s\t%d\t%s\n" % (self.id, hexs(self.stream), sz or "one", self.mode, self.pause, hexs(self.probe))
 
 
-def run_tcp(server, d, cases, tag="tcp", workers=6, timeout=1500, selfclose_ms=20000):
+def run_tcp(server, d, cases, tag="tcp", workers=6, timeout=3000, selfclose_ms=20000):
     """Returns {id: dict(status, rx, witness, probe_rx)}, error-text-or-None."""
     inp, out = d / (tag + ".cases"), d / (tag + ".out")
     inp.write_text("".join(c.line() for c in cases))
